@@ -291,6 +291,8 @@ func suiteC18(cfg Config, res *Result) {
 			}
 		}
 	}
+	c18None(res)
+	c18EmptyBody(res)
 	// widthratio through the template
 	wrN := 14
 	if cfg.Thorough() {
@@ -561,4 +563,106 @@ func c18Oracle(c fcase) string {
 		}
 	}
 	return ""
+}
+
+type c18Post struct {
+	Author *c18Post
+	Views  *int
+	Title  *string
+	Tags   []string
+	N      int
+}
+
+// c18None: None is nil and every nil pointer, whatever its type and wherever it comes from; an
+// empty or zero value is not None
+func c18None(res *Result) {
+	seven := 7
+	nones := []any{nil, (*int)(nil), (*string)(nil), (*c18Post)(nil), (*[]int)(nil), (**int)(nil)}
+	falsy := []any{0, "", false, []int{}, []string(nil), map[string]int(nil), 0.0}
+	truthy := []any{1, "x", true, []int{0}, &seven, &c18Post{N: 1}, &c18Post{}}
+	check := func(what, f string, v any, p any, want string) {
+		res.Cases++
+		res.DistinctNontrivial++
+		r, err := pongo2.ApplyFilter(f, pongo2.AsValue(v), pongo2.AsValue(p))
+		got := "error"
+		if err == nil {
+			got = r.String()
+		}
+		if got != want {
+			res.add(Finding{Kind: "oracle", Proj: "filter", Sig: "c18-" + f + "-none", Case: fmt.Sprintf("%s: %T(%v)|%s:%v", what, v, v, f, p), Impl: got, Model: want})
+		}
+	}
+	for _, v := range nones {
+		check("None", "default_if_none", v, "d", "d")
+		check("None", "default", v, "d", "d")
+		check("None", "yesno", v, "y,n,m", "m")
+		check("None", "yesno", v, nil, "maybe")
+		check("None", "yesno", v, "y,n", "maybe") // pinned by pongo2's fixture (Django: the second choice)
+	}
+	for _, v := range falsy {
+		check("not None", "default_if_none", v, "d", pongo2.AsValue(v).String())
+		check("not None", "default", v, "d", "d")
+		check("not None", "yesno", v, "y,n,m", "n")
+	}
+	for _, v := range truthy {
+		check("not None", "default_if_none", v, "d", pongo2.AsValue(v).String())
+		check("not None", "default", v, "d", pongo2.AsValue(v).String())
+		check("not None", "yesno", v, "y,n,m", "y")
+	}
+	// the same from a template: context entries and fields
+	title := "T"
+	ctx := pongo2.Context{"np": (*int)(nil), "ns": (*string)(nil), "post": c18Post{}, "full": c18Post{Author: &c18Post{N: 2}, Views: &seven, Title: &title}, "pp": (*c18Post)(nil)}
+	for _, c := range [][2]string{
+		{`{{ np|default_if_none:"d" }}`, "d"}, {`{{ ns|default_if_none:"d" }}`, "d"}, {`{{ pp|default_if_none:"d" }}`, "d"}, {`{{ post.Author|default_if_none:"d" }}`, "d"},
+		{`{{ post.Views|default_if_none:"d" }}`, "d"}, {`{{ post.Title|default_if_none:"d" }}`, "d"}, {`{{ post.Tags|default_if_none:"d"|length }}`, "0"}, {`{{ post.N|default_if_none:"d" }}`, "0"},
+		{`{{ full.Views|default_if_none:"d" }}`, "7"}, {`{{ full.Title|default_if_none:"d" }}`, "T"}, {`{{ full.Author.N|default_if_none:"d" }}`, "2"}, {`{{ full.Author.Author|default_if_none:"d" }}`, "d"},
+		{`{{ np|yesno:"y,n,m" }}`, "m"}, {`{{ post.Author|yesno:"y,n,m" }}`, "m"}, {`{{ post.Views|yesno }}`, "maybe"}, {`{{ full.Views|yesno }}`, "yes"}, {`{{ post.N|yesno }}`, "no"},
+		{`{{ nosuch|default_if_none:"d" }}`, "d"}, {`{{ nosuch|yesno:"y,n,m" }}`, "m"}, {`{% filter default_if_none:"d" %}{% endfilter %}`, ""},
+	} {
+		res.Cases++
+		r := implRender(c[0], ctx)
+		if r.Err != "" || r.Panicked || r.Out != c[1] {
+			res.add(Finding{Kind: "oracle", Proj: "filter", Sig: "c18-none-in-template", Case: c[0], Impl: r.String(), Model: "ok " + hx(c[1])})
+		}
+	}
+}
+
+// c18EmptyBody: the filter tag applies its chain to whatever its body rendered, also to nothing
+func c18EmptyBody(res *Result) {
+	for _, fp := range [][2]string{{"default", `"n/a"`}, {"length", ""}, {"wordcount", ""}, {"integer", ""}, {"float", ""}, {"length_is", "0"}, {"center", "5"}, {"ljust", "3"}, {"rjust", "3"},
+		{"yesno", `"y,n,m"`}, {"default_if_none", `"x"`}, {"add", `"x"`}, {"add", "3"}, {"join", `","`}, {"linenumbers", ""}, {"pluralize", ""}, {"floatformat", "2"}, {"divisibleby", "2"},
+		{"stringformat", `"[%s]"`}, {"upper", ""}, {"first", ""}, {"make_list", ""}, {"split", `","`}, {"date", `"2006"`}} {
+		var pv *pongo2.Value
+		switch {
+		case fp[1] == "":
+			pv = pongo2.AsValue(nil)
+		case fp[1][0] == '"':
+			pv = pongo2.AsValue(strings.Trim(fp[1], `"`))
+		default:
+			var n int
+			fmt.Sscan(fp[1], &n)
+			pv = pongo2.AsValue(n)
+		}
+		want := "err"
+		if r, err := pongo2.ApplyFilter(fp[0], pongo2.AsValue(""), pv); err == nil {
+			want = "ok " + hx(r.String())
+		}
+		f := fp[0]
+		if fp[1] != "" {
+			f += ":" + fp[1]
+		}
+		for _, body := range []string{"", "{{ e }}", "{{ nosuch }}", "{% if 0 %}x{% endif %}", "{# c #}", "{% for q in e %}x{% endfor %}"} {
+			src := "{% filter " + f + " %}" + body + "{% endfilter %}"
+			res.Cases++
+			res.DistinctNontrivial++
+			r := implRender(src, pongo2.Context{"e": ""})
+			got := "err"
+			if r.Err == "" && !r.Panicked {
+				got = "ok " + hx(r.Out)
+			}
+			if got != want {
+				res.add(Finding{Kind: "oracle", Proj: "filter", Sig: "c18-" + fp[0] + "-on-empty-body", Case: src, Impl: r.String(), Model: "ApplyFilter on the empty text: " + want})
+			}
+		}
+	}
 }
